@@ -160,6 +160,8 @@ func execSteps(w *world.World, s *world.Session, b *world.Broker, steps []Step) 
 			s.MQSend(st.Raw)
 		case "advance":
 			time.Sleep(st.D)
+		case "note":
+			w.Tr.Add(s.ID, world.Note, nil, st.Cause)
 		case "note-cause":
 			w.Tr.Add(s.ID, world.Note, nil, "cause:"+st.Cause)
 		case "cause":
